@@ -116,6 +116,16 @@ pub enum Dt {
     Pto,
 }
 
+/// What the ECN section of an ACK frame says.
+#[derive(Debug, Clone, Copy, PartialEq, Eq, Serialize, Deserialize)]
+pub enum EcnMode {
+    Absent,
+    /// counts present, ECN-CE total unchanged
+    Same,
+    /// counts present, ECN-CE total one larger than the last one reported
+    Plus1,
+}
+
 #[derive(Debug, Clone, PartialEq, Serialize, Deserialize)]
 pub enum Op {
     Send { epoch: u8, size: u32, ack_eliciting: bool, in_flight: bool },
@@ -654,12 +664,20 @@ impl CcSys {
     }
 
     fn apply_ack(&mut self, e: usize, set: &BTreeSet<u64>, delay_ms: u32, ce: bool) {
+        self.apply_ack_ecn(e, set, delay_ms, if ce { EcnMode::Plus1 } else { EcnMode::Absent })
+    }
+
+    fn apply_ack_ecn(&mut self, e: usize, set: &BTreeSet<u64>, delay_ms: u32, mode: EcnMode) {
         let now = self.now_ns();
-        let ecn = if ce {
-            self.spaces[e].ce += 1;
-            Some(EcnCounts::new(vi(0), vi(0), vi(self.spaces[e].ce)))
-        } else {
-            None
+        let ce = mode == EcnMode::Plus1;
+        let ecn = match mode {
+            EcnMode::Absent => None,
+            // the counts are cumulative: a frame may carry them without any new mark
+            EcnMode::Same => Some(EcnCounts::new(vi(0), vi(0), vi(self.spaces[e].ce))),
+            EcnMode::Plus1 => {
+                self.spaces[e].ce += 1;
+                Some(EcnCounts::new(vi(0), vi(0), vi(self.spaces[e].ce)))
+            }
         };
         let frame = ack_frame_for(set, delay_ms as u64 * 1000, ecn);
         // the call sequence of qconnection::space::*: frames are dispatched first, then
@@ -1439,6 +1457,95 @@ impl System for FillWrap {
 }
 
 // ---------------------------------------------------------------------------------------
+// ecn: histories in which the peer reports ECN counts in (almost) every ACK frame. In the
+// general search an ECN-CE mark is a deviation and a frame with unchanged counts does not
+// occur; here both are ordinary answers, so that several marks per recovery period and the
+// acknowledgements after it are within the depth bound.
+// ---------------------------------------------------------------------------------------
+
+#[derive(Debug, Clone, PartialEq, Serialize, Deserialize)]
+pub enum EOp {
+    Send,
+    Ack { shape: Shape, ecn: EcnMode },
+    /// 1 ms passes
+    Wait,
+}
+
+pub struct EcnSys {
+    sys: CcSys,
+    hist: Vec<EOp>,
+    waits: u32,
+}
+
+impl EcnSys {
+    pub fn new(role: Role, sink: Arc<Sink>, strict: Option<String>) -> EcnSys {
+        let cfg = Cfg { role, phase: Phase::Confirmed, max_outstanding: 3 };
+        EcnSys { sys: CcSys::new(cfg, sink, strict), hist: vec![], waits: 0 }
+    }
+}
+
+impl System for EcnSys {
+    type Op = EOp;
+
+    fn ops(&self) -> Vec<EOp> {
+        let mut v = vec![];
+        let sp = &self.sys.spaces[2];
+        if sp.outstanding() < self.sys.cfg.max_outstanding {
+            v.push(EOp::Send);
+        }
+        let mut seen: Vec<BTreeSet<u64>> = Vec::new();
+        for shape in [Shape::Newest, Shape::All, Shape::GrowDown, Shape::AllButOldest] {
+            let Some(set) = self.sys.ack_set(2, shape) else { continue };
+            if seen.contains(&set) {
+                continue;
+            }
+            seen.push(set);
+            v.push(EOp::Ack { shape, ecn: EcnMode::Same });
+            v.push(EOp::Ack { shape, ecn: EcnMode::Plus1 });
+            if shape == Shape::Newest {
+                v.push(EOp::Ack { shape, ecn: EcnMode::Absent });
+            }
+        }
+        if sp.next_pn > 0 && self.waits < 3 && !matches!(self.hist.last(), Some(EOp::Wait)) {
+            v.push(EOp::Wait);
+        }
+        v
+    }
+
+    fn step(&mut self, op: &EOp) -> Result<(), Fail> {
+        if self.sys.strict.is_none() {
+            self.sys.pending.replace(Pending::default());
+        }
+        self.hist.push(op.clone());
+        match *op {
+            EOp::Send => self.sys.apply_send(2, MDS, true, true),
+            EOp::Ack { shape, ecn } => match self.sys.ack_set(2, shape) {
+                Some(set) => self.sys.apply_ack_ecn(2, &set, 0, ecn),
+                None => return Err(Fail::new("machinery/ack-not-enabled", format!("{op:?} is not enabled here"))),
+            },
+            EOp::Wait => {
+                self.waits += 1;
+                self.sys.clock.advance(Duration::from_millis(1));
+                self.sys.apply_tick();
+            }
+        }
+        self.sys.strict_check()
+    }
+
+    fn canon(&self) -> String {
+        format!("{}|{}", self.sys.canon(), self.waits)
+    }
+
+    fn outcome(&self) -> Option<String> {
+        self.sys.flush_with(serde_json::to_value(&self.hist).unwrap_or(Value::Null), 0);
+        #[cfg(feature = "snapshot")]
+        return Some(format!("cwnd{}", self.sys.snap.cwnd));
+        #[cfg(not(feature = "snapshot"))]
+        return Some(format!("ce{}", self.sys.spaces[2].ce));
+    }
+}
+
+// ---------------------------------------------------------------------------------------
 // driver
 // ---------------------------------------------------------------------------------------
 
@@ -1464,6 +1571,9 @@ pub fn replay(args: &Args) -> i32 {
             || FillWrap { inner: FillSys::new(role, sink.clone(), Some(expect.clone())), hist: vec![] },
             &r["history"],
         )
+    } else if sub == "ecn" {
+        let role: Role = serde_json::from_value(r["config"]["role"].clone()).unwrap_or(Role::Client);
+        mc_core::explore::replay(|| EcnSys::new(role, sink.clone(), Some(expect.clone())), &r["history"])
     } else {
         let cfg: Cfg = match serde_json::from_value(r["config"].clone()) {
             Ok(c) => c,
@@ -1652,6 +1762,31 @@ pub fn run(args: &Args) -> i32 {
             ));
             cov.extra.insert("oracle_activity".into(), sink.counters.json());
             report.sub(&format!("window-fill-{role:?}-D{depth_f}").to_lowercase(), cov);
+        }
+    }
+    if args.wants("ecn") {
+        for role in [Role::Client, Role::Server] {
+            let sink = Arc::new(Sink::default());
+            let depth_e = if args.thorough { 14 } else { 11 };
+            let ecfg = ExploreCfg {
+                max_depth: depth_e,
+                time_cap: Duration::from_secs(if args.thorough { 120 } else { 10 }),
+                ..Default::default()
+            };
+            let sk = sink.clone();
+            let mut stats = explore(move || EcnSys::new(role, sk.clone(), None), &ecfg);
+            for (sig, e) in std::mem::take(&mut *sink.map.lock().unwrap()) {
+                stats.violations.entry(sig).or_insert(e);
+            }
+            file(&mut report, "ecn", json!({"role": role}), &stats.violations);
+            if let Some(c) = &stats.cap_hit {
+                report.caps_hit.push(format!("ecn-{role:?}: {c}"));
+            }
+            let mut cov = stats.coverage(&format!(
+                "BFS over histories ≤ {depth_e} ops on the real ArcCC ({role:?}, handshake confirmed) with a peer that reports ECN counts: send (full-size, ≤ 3 outstanding), ack(newest | all | all-but-oldest | range growing downwards; ECN counts unchanged | ECN-CE +1 | absent), 1 ms passes + do_tick; the window oracles of the main search apply (no reduction without a loss or a larger ECN-CE count, at most one reduction per recovery period, reduction dated by the send time of the frame's largest)"
+            ));
+            cov.extra.insert("oracle_activity".into(), sink.counters.json());
+            report.sub(&format!("ecn-{role:?}-D{depth_e}").to_lowercase(), cov);
         }
     }
     report.finish()
